@@ -35,7 +35,8 @@ OUTSIDE = "real asyncio datagram transport, kernel drops, queues longer than a f
 
 
 class Shaped(AsyncDatagramRequestHandler):
-    def __init__(self, be, log, per_gen, suspend, timeout, block_a):
+    def __init__(self, be, log, per_gen, suspend, timeout, block_a, cancelled_a=False):
+        self.cancelled_a = cancelled_a
         self.be = be
         self.log = log
         self.per_gen = per_gen
@@ -52,6 +53,8 @@ class Shaped(AsyncDatagramRequestHandler):
         if self.active[addr] > self.max_active:
             self.max_active = self.active[addr]
         self.gen_count += 1
+        if addr == "A":
+            self.gen_count_of_a = getattr(self, "gen_count_of_a", 0) + 1
         self.log.append(("gen-start", addr))
         try:
             n = 0
@@ -71,12 +74,19 @@ class Shaped(AsyncDatagramRequestHandler):
                     await self.be.sleep_forever()
                 for _ in range(self.suspend):
                     await self.be.coro_yield()
+                if self.cancelled_a and addr == "A" and self.gen_count_of_a == 1:
+                    # the handler lets a CancelledError escape although nobody cancelled the server (e.g. it awaited a helper
+                    # task that was cancelled): for the server this is just a generator that ended
+                    raise self.be.get_cancelled_exc_class()()
         finally:
             self.active[addr] -= 1
             self.log.append(("gen-close", addr))
 
 
-def serve(na: int, nb: int, K: int, per_gen: int, suspend: int = 0, timeout=None, block_a: bool = False, prefix: list = ()):
+def serve(na: int, nb: int, K: int, per_gen: int, suspend: int = 0, timeout=None, block_a: bool = False, prefix: list = (), cancelled_a: bool = False, early: list = (), raw: bool = False):
+    """early: addresses whose first datagrams are received by the listener BEFORE serve() runs (the endpoint is bound before the
+    server starts serving; the real DatagramListenerProtocol keeps them and hands them over when serve() starts)."""
+
     def scenario(S):
         # one datagram per address is well-formed or malformed by solver choice, the others are well-formed
         seqs = {
@@ -88,21 +98,26 @@ def serve(na: int, nb: int, K: int, per_gen: int, suspend: int = 0, timeout=None
             listener = MemDatagramListener(be, loop)
             server = AsyncDatagramServer(listener, DatagramProtocol(L.RawFixed(1)))
             log = []
-            H = Shaped(be, log, per_gen, suspend, timeout, block_a)
+            H = Shaped(be, log, per_gen, suspend, timeout, block_a, cancelled_a)
 
             @contextlib.asynccontextmanager
             async def initializer(ctx):
                 yield ctx
 
             handler = build_lowlevel_datagram_server_handler(initializer, H)
+            if raw:
+                handler = H.handle  # the low-level API used directly: the generator function itself is the datagram_received_cb
 
             async def main():
                 async with be.create_task_group() as tg:
                     await server.serve(handler, tg)
 
+            sent = {"A": 0, "B": 0}
+            for addr in early:
+                listener.inject(seqs[addr][sent[addr]], addr)
+                sent[addr] += 1
             main_task = loop.create_task(main())
             loop.step()
-            sent = {"A": 0, "B": 0}
             queued = 0
 
             def inject(addr):
@@ -162,6 +177,8 @@ def serve(na: int, nb: int, K: int, per_gen: int, suspend: int = 0, timeout=None
                 tags.append("queued-while-active")
             if H.gen_count > 2:
                 tags.append("respawn")
+            if early:
+                tags.append("queued-while-active")  # received before serve(): delivered late by construction
             if any(ev[0] == "err" for ev in log):
                 tags.append("parse-error")
             if any(ev[0] == "timeout" for ev in log):
@@ -187,7 +204,16 @@ def shards(tier: str):
         ("g1-t0", dict(per_gen=1, suspend=0, timeout=0)),
         ("blockA", dict(per_gen=0, suspend=0, block_a=True)),
     ]
-    for name, shape in shapes:
+    extra = [
+        ("cancelledA", dict(per_gen=0, suspend=2, cancelled_a=True)),
+        ("raw/cancelledA", dict(per_gen=0, suspend=2, cancelled_a=True, raw=True)),
+        ("raw/g1-s1", dict(per_gen=1, suspend=1, raw=True)),
+        ("raw/ginf-t0", dict(per_gen=0, suspend=1, timeout=0, raw=True)),
+        ("early-AB/blockA", dict(per_gen=0, suspend=0, block_a=True, early=["A", "B"])),
+        ("early-AAB/g1-s1", dict(per_gen=1, suspend=1, early=["A", "A", "B"])),
+        ("early-BA/ginf-s2", dict(per_gen=0, suspend=2, early=["B", "A"])),
+    ]
+    for name, shape in shapes + extra:
         for pre in range(3):
             out.append({"name": f"serve/{name}/K{K}/pre{pre}", "scenario": "props.c16:serve", "params": dict(na=na, nb=nb, K=K, prefix=[pre], **shape), "budget": B, "cost": 3**K, "per_path_timeout": 30})
     return out
